@@ -263,6 +263,15 @@ func (fr *frame) hazard(class, g, okCond string, pos token.Pos, what string) {
 	if fr.nosafety && panicClasses[class] {
 		return
 	}
+	// `safety only c1 c2`: of the panic classes, only the named ones are obligations of this function (listed)
+	if root := fr.rootFr; root != nil && root.contract != nil && panicClasses[class] {
+		if sc := root.contract.First("safety"); strings.HasPrefix(sc, "only ") {
+			if !strings.Contains(" "+sc[5:]+" ", " "+class+" ") {
+				fr.vc.note("safety restricted on " + fr.vc.fn + ": only the panic classes " + sc[5:] + " are checked")
+				return
+			}
+		}
+	}
 	// `recovers <class>`: the function handles this panic itself with a deferred recover (only honoured while it has one)
 	if fr.contract != nil && panicClasses[class] {
 		for _, c := range fr.contract.Get("recovers") {
